@@ -1,5 +1,6 @@
 import Spydr.IR.Props.C07
 import Spydr.IR.Props.C07Elem
+import Spydr.IR.Props.C07Struct
 open Spydr.IR
 #print axioms Spydr.IR.cloneNetlist_inv
 #print axioms Spydr.IR.cloneNetlist_frame
@@ -21,3 +22,6 @@ open Spydr.IR
 #print axioms Spydr.IR.cloneElem_source_untouched
 #print axioms Spydr.IR.cloneElem_reference_sets
 #print axioms Spydr.IR.pruneInside_inside
+#print axioms Spydr.IR.step_structEq
+#print axioms Spydr.IR.run_structEq
+#print axioms Spydr.IR.cloneElem_same_structure
